@@ -5,8 +5,10 @@
 //! schema activation) on the real Nexus, starting from the seeded Space.
 //! After every commit s a BATTERY of queries is recorded live; after the last
 //! statement of every history each recording is replayed with `AS OF SEQ s`
-//! (and a sub-battery with `AS OF TX` / `AS OF TIME`). Oracle: replay ==
-//! recording. Every (point, later statement) pair is covered exactly once,
+//! (and sub-batteries with `AS OF TX` / `AS OF TIME` and, bound through the
+//! `read.snapshot_token` taken at s, without any AS OF). Oracle: replay ==
+//! recording, result and `schema_environment_version` of the response
+//! context. Every (point, later statement) pair is covered exactly once,
 //! by the history that ends in that statement.
 
 use anda_kip::{Json, Map};
@@ -29,9 +31,15 @@ struct StepDef {
     op: Op,
 }
 
-/// One representative per mutation kind that rewrites existing elements
-/// (update, archive, supersede, merge) plus schema activation.
-const CORE: [&str; 5] = ["rename-a", "archive-b", "supersede", "merge-b-into-a", "toggle-schema"];
+/// Depth 3 of the quick tier: an update, a merge and a schema activation.
+const CORE: [&str; 3] = ["rename-a", "merge-b-into-a", "toggle-schema"];
+
+/// Quick tier, depth 2: the SECOND statement ranges over one representative
+/// per kind of later mutation (the first over the whole alphabet).
+const LATER: [&str; 12] = [
+    "rename-a", "archive-b", "archive-n", "merge-m-into-n", "merge-b-into-a", "archive-status-off", "archive-rel-bd",
+    "supersede", "toggle-schema", "extend-rel", "assert-idle", "purge-m-refused-at-commit",
+];
 
 fn alphabet() -> Vec<StepDef> {
     let k = |name, text| StepDef { name, op: Op::Kml(text) };
@@ -52,6 +60,15 @@ fn alphabet() -> Vec<StepDef> {
         // a rival PROPOSITION of the functional slot (a, status) leaves ordinary recall
         k("archive-status-off", r#"ARCHIVE "P-3""#),
         k("tombstone-status-on", r#"TOMBSTONE "P-2""#),
+        // a hop of the `rel` chain n -> a -> b -> d leaves ordinary recall / the chain grows
+        k("archive-rel-bd", r#"ARCHIVE "P-8""#),
+        k("extend-rel", r#"MUTATE {
+            ENSURE PROPOSITION ?r (:d_ref, "rel", :n_ref)
+            ENSURE PROPOSITION ?r2 (:m_ref, "rel", :d_ref)
+          }"#),
+        // a structural SOURCE leaves the active state
+        k("archive-n", r#"ARCHIVE ?c WHERE { ?c CONCEPT {key: "n"} }"#),
+        k("merge-m-into-n", r#"MERGE CONCEPT ?s INTO ?t WHERE { ?s CONCEPT {key: "m"} ?t CONCEPT {key: "n"} }"#),
         k("reject-prefers", r#"MUTATE {
             CREATE EVIDENCE ?e { SET FIELDS {evidence_class: "user_statement", payload: "not really", observed_at: "2026-02-03T00:00:00Z"} }
             CREATE ASSERTION ?r { SET FIELDS {proposition: :p, asserted_by: :b, stance: "reject", mode: "stated", confidence: 0.9,
@@ -61,8 +78,8 @@ fn alphabet() -> Vec<StepDef> {
         // refused at commit (the key "a" is held): never extended, but every
         // recording is replayed after it — a refused statement, PURGE clause
         // included, removes nothing from the past
-        k("purge-n-refused-at-commit", r#"MUTATE {
-            PURGE "C-4" CONFIRM "PURGE"
+        k("purge-m-refused-at-commit", r#"MUTATE {
+            PURGE "C-5" CONFIRM "PURGE"
             CREATE CONCEPT ?dup { TYPE "Person" NAME "Impostor" SET FIELDS {key: "a"} }
           }"#),
         StepDef { name: "toggle-schema", op: Op::ToggleSchema },
@@ -82,25 +99,26 @@ struct Q {
     /// Asked with TX / TIME coordinates too (they resolve to a sequence and
     /// then share the SEQ path, so a sub-battery is enough).
     all_coordinates: bool,
-    /// Bound as `:subject` when the query takes one.
-    subject: Option<&'static str>,
+    /// Also replayed through `read.snapshot_token` (no `AS OF` in the
+    /// command): the queries whose answer depends on name resolution or on
+    /// schema definitions (`functional`).
+    token: bool,
+    /// Request parameters (`:subject`, `:d`, ...).
+    params: Vec<(&'static str, Json)>,
 }
 
 fn battery() -> Vec<Q> {
-    let q = |family, head| Q { family, head, tail: String::new(), all_coordinates: false, subject: None };
-    let qt = |family, head, tail: &str| Q { family, head, tail: tail.to_string(), all_coordinates: false, subject: None };
+    let q = |family, head| Q { family, head, tail: String::new(), all_coordinates: false, token: false, params: vec![] };
+    let qt = |family, head, tail: &str| Q { family, head, tail: tail.to_string(), all_coordinates: false, token: false, params: vec![] };
     let pinned = format!(" {FOR_TIME}");
     let mut out = vec![
         // element by key / name / type
         q("concept-by-type-key", r#"FIND(?c) WHERE { ?c CONCEPT {type: "Person", key: "a"} }"#),
-        q("concept-paths", r#"FIND(?c.name, ?c.attributes.display_name, ?c._system.version, ?c._system.state) WHERE { ?c CONCEPT {key: "a"} }"#),
         qt("concept-by-type-ordered", r#"FIND(?c.id, ?c.name) WHERE { ?c CONCEPT {type: "Person"} }"#, " ORDER BY ?c.name DESC"),
         q("concept-all", r#"FIND(?c) WHERE { ?c CONCEPT {} }"#),
-        q("concept-by-name", r#"FIND(?c.id) WHERE { ?c CONCEPT {name: "Ann"} }"#),
         q("concept-new-type", r#"FIND(?c) WHERE { ?c CONCEPT {type: "Widget"} }"#),
         q("matcher-key-state", r#"FIND(?c.id) WHERE { ?c CONCEPT {state: "active"} }"#),
         q("matcher-key-state", r#"FIND(?c.id) WHERE { ?c CONCEPT {state: "archived"} }"#),
-        q("matcher-key-state", r#"FIND(?c.id) WHERE { ?c CONCEPT {state: "merged"} }"#),
         q("concept-by-id", r#"FIND(?c) WHERE { ?c CONCEPT {id: "C-2"} }"#),
         q("id-with-indexed-key", r#"FIND(?c.id) WHERE { ?c CONCEPT {id: "C-3", state: "tombstoned"} }"#),
         q("id-with-indexed-key", r#"FIND(?c.id, ?c.name) WHERE { ?c CONCEPT {id: "C-1", name: "Ann"} }"#),
@@ -116,11 +134,20 @@ fn battery() -> Vec<Q> {
         q("assertion-fields", r#"FIND(?a.id, ?a.lifecycle.status, ?a.confidence, ?a.lifecycle.superseded_by) WHERE { ?a ASSERTION {stance: "support"} }"#),
         q("assertion-join", r#"FIND(?a.id, ?p.id, ?who.name) WHERE { ?a ASSERTION {proposition: ?p, asserted_by: ?who, status: "active"} }"#),
         q("evidence-all", r#"FIND(?e) WHERE { ?e EVIDENCE {} }"#),
-        q("activity-all", r#"FIND(?x) WHERE { ?x ACTIVITY {} }"#),
         // structural / path
         q("structural-from-source", r#"FIND(?t.id, ?t.name) WHERE { ?n CONCEPT {key: "n"} STRUCTURAL (?n, "mentions", ?t) }"#),
         q("structural-open", r#"FIND(?n.id, ?t.id) WHERE { STRUCTURAL (?n, "about", ?t) }"#),
+        Q { family: "structural-pinned-source", head: r#"FIND(?t.id) WHERE { STRUCTURAL (:n, "mentions", ?t) }"#, tail: String::new(), all_coordinates: false, token: false, params: vec![("n", json!("C-4"))] },
+        Q { family: "structural-pinned-target", head: r#"FIND(?s.id, ?s.name) WHERE { STRUCTURAL (?s, "about", :a) }"#, tail: String::new(), all_coordinates: false, token: false, params: vec![("a", json!("C-1"))] },
+        q("structural-bound-source", r#"FIND(?s.id, ?t.id) WHERE { ?s CONCEPT {type: "Insight"} STRUCTURAL (?s, "derived_from", ?t) }"#),
+        q("structural-count", r#"FIND(COUNT(?s)) WHERE { STRUCTURAL (?s, "mentions", ?t) }"#),
         q("path-quantified", r#"FIND(?y.id) WHERE { ?x CONCEPT {key: "a"} (?x, "prefers"{1,2}, ?y) }"#),
+        q("path-forward-chain", r#"FIND(?y.id) WHERE { ?x CONCEPT {key: "n"} (?x, "rel"{1,3}, ?y) }"#),
+        q("path-backward-bound-object", r#"FIND(?from.id) WHERE { ?to CONCEPT {key: "d"} (?from, "rel"{1,3}, ?to) }"#),
+        Q { family: "path-backward-fixed-object", head: r#"FIND(?from.id) WHERE { (?from, "rel"{1,2}, :d) }"#, tail: String::new(), all_coordinates: false, token: false, params: vec![("d", json!({"id": "C-3"}))] },
+        q("path-both-ends", r#"FIND(?x.id, ?y.id) WHERE { ?x CONCEPT {key: "n"} ?y CONCEPT {key: "d"} (?x, "rel"{1,3}, ?y) }"#),
+        q("path-unpinned", r#"FIND(?x.id, ?y.id) WHERE { (?x, "rel"{2}, ?y) }"#),
+        q("path-backward-count", r#"FIND(COUNT(?from)) WHERE { ?to CONCEPT {key: "d"} (?from, "rel"{1,3}, ?to) }"#),
         q("path-alternation", r#"FIND(?y) WHERE { ?x CONCEPT {key: "a"} (?x, "prefers" | "status", ?y) }"#),
         // belief and slot, world time pinned
         qt("belief-all", r#"FIND(?p.id, ?b) WHERE { ?p PROPOSITION (?s, ?pr, ?o) ?b BELIEF (?p) }"#, &pinned),
@@ -128,11 +155,10 @@ fn battery() -> Vec<Q> {
         qt("belief-ledger", r#"FIND(?b) WHERE { ?b BELIEF (id: "P-1") }"#, &format!(r#"{pinned} WITH EPISTEMIC {{explanation: "ledger", include_historical: true}}"#)),
         qt("belief-functional-siblings", r#"FIND(?p.id, ?b.status, ?b.support.score, ?b.opposition.score) WHERE { ?s CONCEPT {key: "a"} ?p PROPOSITION (?s, "status", ?o) ?b BELIEF (?p) }"#, &pinned),
         qt("belief-functional-sibling-by-id", r#"FIND(?b.status, ?b.opposition) WHERE { ?b BELIEF (id: "P-2") }"#, &pinned),
-        qt("belief-functional-sibling-by-id", r#"FIND(?b.status, ?b.opposition) WHERE { ?b BELIEF (id: "P-3") }"#, &pinned),
         qt("belief-functional-siblings", r#"FIND(?p.id, ?b.status, ?b.support.score, ?b.opposition.score) WHERE { ?s CONCEPT {key: "b"} ?p PROPOSITION (?s, "status", ?o) ?b BELIEF (?p) }"#, &pinned),
         qt("belief-functional-sibling-by-id", r#"FIND(?b.status, ?b.opposition) WHERE { ?b BELIEF (id: "P-4") }"#, &pinned),
-        Q { family: "belief-slot", head: r#"FIND(?slot) WHERE { ?slot BELIEF SLOT (:subject, "status") }"#, tail: pinned.clone(), all_coordinates: false, subject: Some("C-1") },
-        Q { family: "belief-slot", head: r#"FIND(?slot) WHERE { ?slot BELIEF SLOT (:subject, "status") }"#, tail: pinned.clone(), all_coordinates: false, subject: Some("C-2") },
+        Q { family: "belief-slot", head: r#"FIND(?slot) WHERE { ?slot BELIEF SLOT (:subject, "status") }"#, tail: pinned.clone(), all_coordinates: false, token: false, params: vec![("subject", json!("C-1"))] },
+        Q { family: "belief-slot", head: r#"FIND(?slot) WHERE { ?slot BELIEF SLOT (:subject, "status") }"#, tail: pinned.clone(), all_coordinates: false, token: false, params: vec![("subject", json!("C-2"))] },
         // filters, negation, optional, aggregates, paging
         q("aggregate-count", r#"FIND(COUNT(?c)) WHERE { ?c CONCEPT {} }"#),
         q("aggregate-numeric", r#"FIND(COUNT(?a), AVG(?a.confidence), MAX(?a.confidence)) WHERE { ?a ASSERTION {} }"#),
@@ -144,19 +170,26 @@ fn battery() -> Vec<Q> {
     ];
     for q in out.iter_mut() {
         q.all_coordinates = matches!(q.family, "concept-all" | "assertion-all" | "belief-all");
+        q.token = matches!(
+            q.family,
+            "concept-by-type-key" | "concept-new-type" | "concept-all" | "tuple-fixed-predicate" | "tuple-new-predicate"
+                | "structural-from-source" | "path-backward-bound-object" | "belief-slot" | "belief-functional-siblings"
+        );
     }
     out
 }
 
-fn ask(nx: &Nx, q: &Q, coordinate: &str) -> Json {
+/// Asks one battery query: at the present (`coordinate` empty, no token), at
+/// `AS OF ...`, or bound through a snapshot token. The answer carries the
+/// result (or error code) and the `schema_environment_version` of the
+/// response context.
+fn ask(nx: &Nx, q: &Q, coordinate: &str, token: Option<&str>) -> Json {
     let text = format!("{}{}{}", q.head, coordinate, q.tail);
-    if let Some(subject) = q.subject {
-        let mut params = Map::new();
-        params.insert("subject".into(), Json::String(subject.into()));
-        nx.q_with(&text, &params)
-    } else {
-        nx.q(&text)
+    let mut params = Map::new();
+    for (name, value) in &q.params {
+        params.insert((*name).to_string(), value.clone());
     }
+    nx.q_env(&text, if params.is_empty() { None } else { Some(&params) }, token)
 }
 
 /// The META reads that take a coordinate. `snapshot_seq` in the schema
@@ -174,6 +207,8 @@ struct Point {
     tx: String,
     at: String,
     after_step: String,
+    /// `SNAPSHOT` taken while the point was current.
+    token: String,
     answers: Vec<Json>,
     meta: Vec<Json>,
 }
@@ -200,7 +235,8 @@ fn record(nx: &Nx, battery: &[Q], seq: u64, tx: String, at: String, after_step: 
         tx,
         at,
         after_step: after_step.to_string(),
-        answers: battery.iter().map(|q| ask(nx, q, "")).collect(),
+        token: nx.q("SNAPSHOT")["ok"]["snapshot_token"].as_str().unwrap_or("").to_string(),
+        answers: battery.iter().map(|q| ask(nx, q, "", None)).collect(),
         meta: ask_meta(nx, ""),
     }
 }
@@ -221,11 +257,11 @@ fn payload(view: &Json, keys: &[&str]) -> Json {
 }
 
 /// Every history here is committed statements from the seeded Space, so the
-/// ids are fixed: a = C-1, b = C-2, d = C-3, n = C-4, (a prefers d) = P-1,
+/// ids are fixed: a = C-1, b = C-2, d = C-3, n = C-4, m = C-5, (a prefers d) = P-1,
 /// its supporting Assertion = A-1.
 fn fixed_params() -> Map<String, Json> {
     let mut out = Map::new();
-    for (name, id) in [("a", "C-1"), ("b", "C-2"), ("d", "C-3"), ("p", "P-1"), ("as1", "A-1")] {
+    for (name, id) in [("a", "C-1"), ("b", "C-2"), ("d", "C-3"), ("n", "C-4"), ("m", "C-5"), ("p", "P-1"), ("as1", "A-1")] {
         out.insert(name.to_string(), Json::String(id.to_string()));
         out.insert(format!("{name}_ref"), json!({"id": id}));
     }
@@ -319,6 +355,9 @@ fn run_path(content: &Content, path: &[usize], steps: &[StepDef], battery: &[Q],
         } else {
             coordinates.push(("time", format!(r#" AS OF TIME "{}""#, point.at)));
         }
+        if !point.token.is_empty() {
+            coordinates.push(("token", String::new()));
+        }
         for (kind, coordinate) in &coordinates {
             let compare = |family: &str, what: String, live: &Json, then: &Json, report: &mut PathReport| {
                 report.comparisons += 1;
@@ -327,11 +366,13 @@ fn run_path(content: &Content, path: &[usize], steps: &[StepDef], battery: &[Q],
                     report.nontrivial += 1;
                 }
                 if live != then {
+                    // same content, different order of rows / list members: its own class
+                    let class = if canon(live) == canon(then) { "as-of-differs-in-order" } else { "as-of-differs" };
                     let mut replay = replay.clone();
                     replay["observed"] = json!({"query": what, "point_seq": point.seq, "recorded_after": point.after_step,
                                                 "replayed_after": last_step, "recorded": live, "replayed": then});
                     report.violations.push(Violation {
-                        signature: format!("C18|as-of-differs|{family}"),
+                        signature: format!("C18|{class}|{family}"),
                         summary: format!(
                             "`{what}` answered {} when seq {} (after `{}`) was current and {} when replayed after `{last_step}`",
                             short(live), point.seq, point.after_step, short(then)
@@ -341,11 +382,21 @@ fn run_path(content: &Content, path: &[usize], steps: &[StepDef], battery: &[Q],
                 }
             };
             for (q, live) in battery.iter().zip(&point.answers) {
-                if *kind != "seq" && !q.all_coordinates {
+                let wanted = match *kind {
+                    "seq" => true,
+                    "token" => q.token,
+                    _ => q.all_coordinates,
+                };
+                if !wanted {
                     continue;
                 }
-                let then = ask(&nx, q, coordinate);
-                compare(q.family, format!("{}{}{}", q.head, coordinate, q.tail), live, &then, &mut report);
+                let token = (*kind == "token").then_some(point.token.as_str());
+                let then = ask(&nx, q, coordinate, token);
+                let how = if token.is_some() { " [read.snapshot_token]" } else { "" };
+                compare(q.family, format!("{}{}{}{how}", q.head, coordinate, q.tail), live, &then, &mut report);
+            }
+            if *kind == "token" {
+                continue;
             }
             let then = ask_meta(&nx, coordinate);
             for (i, name) in ["schema-environment", "snapshot"].iter().enumerate() {
@@ -386,6 +437,20 @@ fn run_path(content: &Content, path: &[usize], steps: &[StepDef], battery: &[Q],
         }
     }
     report
+}
+
+/// The value with every array sorted (recursively): equal canons = the two
+/// answers differ only in order.
+fn canon(value: &Json) -> Json {
+    match value {
+        Json::Array(items) => {
+            let mut items: Vec<Json> = items.iter().map(canon).collect();
+            items.sort_by_key(|item| item.to_string());
+            Json::Array(items)
+        }
+        Json::Object(map) => Json::Object(map.iter().map(|(k, v)| (k.clone(), canon(v))).collect()),
+        other => other.clone(),
+    }
 }
 
 fn short(value: &Json) -> String {
@@ -440,6 +505,8 @@ fn main() {
         // histories built from one representative per mutation kind.
         let jobs: Vec<Vec<usize>> = if run.tier == vcore::Tier::Quick && depth >= 3 {
             jobs.into_iter().filter(|path| path.iter().all(|s| CORE.contains(&steps[*s].name))).collect()
+        } else if run.tier == vcore::Tier::Quick && depth == 2 {
+            jobs.into_iter().filter(|path| LATER.contains(&steps[path[1]].name)).collect()
         } else {
             jobs
         };
@@ -492,12 +559,12 @@ fn main() {
     run.set("alphabet", json!(steps.iter().map(|s| s.name).collect::<Vec<_>>()));
     run.set("comparisons_by_coordinate", json!(by_kind));
     run.rule(
-        "HIST: all histories over the step alphabet from the seeded Space (quick: whole alphabet to depth 2, the 5 kind-representatives CORE at depth 3; thorough: whole alphabet at every depth), a history being extended only while every step commits \
+        "HIST: all histories over the step alphabet from the seeded Space (quick: depth 1 whole alphabet, depth 2 = whole alphabet x the 12 later-mutation representatives LATER, depth 3 = the 3 representatives CORE; thorough: whole alphabet at every depth), a history being extended only while every step commits \
          (refused / no_effect steps are executed and replayed after, then pruned); the battery is recorded live after the seed and after \
          every commit, and after the LAST statement of each history every recording is replayed AS OF SEQ (whole battery) and \
-         AS OF TX / AS OF TIME (3 whole-kind queries + META); distinct = (history, last outcome); nontrivial = recorded answer was non-empty",
+         AS OF TX / AS OF TIME (3 whole-kind queries + META) and through read.snapshot_token (the name-resolution / schema dependent queries); distinct = (history, last outcome); nontrivial = recorded answer was non-empty",
     );
     run.assume("commit timestamps are wall-clock ms (chrono::Utc::now, not the verif clock): AS OF TIME is replayed only for points whose timestamp is strictly below every later transaction's (skips are counted); in the quick tier only for the seed point");
-    run.assume("belief queries are pinned with FOR TIME; the replay compares the `result` of the response (plus error code), not the response envelope");
+    run.assume("belief queries are pinned with FOR TIME; the replay compares the `result` of the response (or its error code) and the schema_environment_version of the response context, nothing else of the envelope");
     run.finish();
 }
